@@ -71,6 +71,9 @@ def check_C03(c):
 
 def check_C04(c):
     g = gen_streams(c, False)
+    g2 = c.generate("MC_GenAcc", "MC_GenAcc_simstale.cfg", 1500 if thorough(c) else 300, 200)
+    with open(g, "a") as f:
+        f.write(open(g2).read())
     c.scenario("genstreams_c04", extra=["--in", g])
     c.scenario("invalid")
     return c.finish("model_checking", RULE_DEC, TRUST)
